@@ -387,6 +387,9 @@ func c11Judge(b *core.B, g *c11Graph, p c11Path, use int) {
 		tmpl = "[<%= if (" + src + ") { %><%= " + src + " %><% } %>]"
 	case 3:
 		tmpl = "[<%= for (e) in " + src + " { %>(<%= e %>)<% } %>]"
+	case 4:
+		// the path as the left operand of an operator
+		tmpl = "[<%= " + src + " + \"|x\" %>]"
 	}
 	if !b.Begin(tmpl) {
 		return
@@ -394,7 +397,7 @@ func c11Judge(b *core.B, g *c11Graph, p c11Path, use int) {
 	res := render(b, tmpl, c11Ctx(g))
 	v, ok := pathNav(g.rootValue(p.rootName), p.steps)
 	shape := p.shape()
-	b.Count("use:" + []string{"output", "let-then-output", "if-condition", "loop-iterable"}[use])
+	b.Count("use:" + []string{"output", "let-then-output", "if-condition", "loop-iterable", "left-operand"}[use])
 	b.NonTrivialStr(tmpl)
 	if res.Pan != nil {
 		return
@@ -417,6 +420,11 @@ func c11Judge(b *core.B, g *c11Graph, p c11Path, use int) {
 				for i := 0; i < v.Len(); i++ {
 					want += "(" + xRender(v.Index(i).String()) + ")"
 				}
+			}
+		case 4:
+			if v.Kind() == reflect.String {
+				judgeable = true
+				want = xRender(v.String() + "|x")
 			}
 		default:
 			if v.Kind() == reflect.String {
@@ -447,7 +455,7 @@ func c11Judge(b *core.B, g *c11Graph, p c11Path, use int) {
 	if res.Err != nil {
 		return // failure reported as an error: fine
 	}
-	if res.Out != "[]" {
+	if res.Out != "[]" && !(use == 4 && res.Out == "[|x]") {
 		if reLeafish.MatchString(res.Out) || strings.Contains(res.Out, "L(") {
 			b.Violate("value-from-failed-path|"+c11ShapeClass(shape), fmt.Sprintf("Go navigation fails, yet the engine rendered %q (shape %s)", res.Out, shape))
 		} else {
@@ -612,7 +620,11 @@ func c11Run(b *core.B) {
 					terminal := t == nil || t == tString
 					iterable := t != nil && t.Kind() == reflect.Slice && t.Elem().Kind() == reflect.String
 					if terminal {
-						c11Judge(b, g, p, int(idx%3))
+						u := int(idx % 4)
+						if u == 3 {
+							u = 4 // 3 is the loop-iterable use
+						}
+						c11Judge(b, g, p, u)
 						b.Count("enumerated-leaf-paths")
 					} else if iterable {
 						c11Judge(b, g, p, 3)
@@ -689,7 +701,7 @@ func init() {
 	core.Register(&core.Prop{
 		ID:         "C11",
 		Level:      "exploration",
-		Rule:       "data graphs of one struct family (string, []string, map[string]string, []Node, []*Node, *Node, [2]Leaf, map[string]Node, map[int]*Node, interface, unexported field; value and pointer methods) in which every leaf string spells its own Go path, nil pointers and missing keys sprinkled in; paths = walks of the type graph from 4 roots (value, pointer, slice, map) over field / index (literal, variable, computed) / map key (literal, variable) / method steps incl. unknown, unexported, out-of-range and missing-key steps: exhaustive to length 4, random to length 8; used in an output tag, a let then output, an if condition, and as loop iterable. Oracle: the same steps walked in Go by reflection; success -> the rendered text must be that leaf; failure -> error or empty output. Non-trivial = every judged path (distinct by template hash).",
+		Rule:       "data graphs of one struct family (string, []string, map[string]string, []Node, []*Node, *Node, [2]Leaf, map[string]Node, map[int]*Node, interface, unexported field; value and pointer methods) in which every leaf string spells its own Go path, nil pointers and missing keys sprinkled in; paths = walks of the type graph from 4 roots (value, pointer, slice, map) over field / index (literal, variable, computed) / map key (literal, variable) / method steps incl. unknown, unexported, out-of-range and missing-key steps: exhaustive to length 4, random to length 8; used in an output tag, a let then output, an if condition, as the left operand of +, and as loop iterable. Oracle: the same steps walked in Go by reflection; success -> the rendered text must be that leaf; failure -> error or empty output. Non-trivial = every judged path (distinct by template hash).",
 		Assume:     []string{"fixture methods are total; PLabel on a nil pointer returns the empty string so that both readings of 'nil pointer' agree", "paths ending in a non-leaf value (struct, map, slice of structs) are not judged in output position"},
 		Batches:    batchesQT(16, 32),
 		Run:        c11Run,
